@@ -34,6 +34,8 @@ pub struct Spec {
     pub back: Vec<u32>,
     pub src: Vec<u32>,
     pub descr: String,
+    /// the source layer is a tilemap layer whose single tile holds the source pixels
+    pub tilemap_top: bool,
 }
 
 fn pack(r: u8, g: u8, b: u8, a: u8) -> u32 {
@@ -55,9 +57,19 @@ pub fn render(spec: &Spec, mode: u16) -> Result<Vec<u32>, Failure> {
     s.layers.push(Layer { flags: LF_VISIBLE, kind: LayerKind::Image, level: 0, blend: 0, opacity: 255, name: "backdrop".into(), user_data: None });
     s.layers.push(Layer { flags: LF_VISIBLE, kind: LayerKind::Image, level: 0, blend: mode, opacity: spec.lop, name: "source".into(), user_data: None });
     s.frames[0].cels.push(Cel { layer: 0, x: 0, y: 0, opacity: 255, content: CelContent::Image { w: spec.w, h: spec.h, pixels: to_bytes(&spec.back) }, user_data: None });
-    s.frames[0].cels.push(Cel { layer: 1, x: 0, y: 0, opacity: spec.cop, content: CelContent::Image { w: spec.w, h: spec.h, pixels: to_bytes(&spec.src) }, user_data: None });
+    if spec.tilemap_top {
+        // same pixels, delivered through the tilemap rendering path: tileset {tile 0 = empty, tile 1 = source}
+        let mut px = vec![0u8; spec.w as usize * spec.h as usize * 4];
+        px.extend(to_bytes(&spec.src));
+        s.tilesets.push(Tileset { id: 9, flags: 6, count: 2, tw: spec.w, th: spec.h, base_index: 1, name: "t".into(), ext: (0, 0), pixels: px });
+        s.layers[1].kind = LayerKind::Tilemap { tileset: 9 };
+        s.frames[0].cels.push(Cel { layer: 1, x: 0, y: 0, opacity: spec.cop, content: CelContent::Tilemap { w: 1, h: 1, bits: 32, masks: [0x1fffffff, 0x20000000, 0x40000000, 0x80000000], tiles: vec![1] }, user_data: None });
+    } else {
+        s.frames[0].cels.push(Cel { layer: 1, x: 0, y: 0, opacity: spec.cop, content: CelContent::Image { w: spec.w, h: spec.h, pixels: to_bytes(&spec.src) }, user_data: None });
+    }
     let mut plan = Plan::plain();
     plan.compress = 0;
+    plan.zlevel = 1;
     let enc = encode(&s, &plan);
     let f = AsepriteFile::read(&enc.bytes[..]).map_err(|e| Failure::new("load-error", format!("probe sprite failed to load: {}", e)))?;
     let img = f.frame(0).image();
@@ -189,7 +201,7 @@ pub fn spec_channel(mode: u16, ba: u8, sa: u8, lop: u8, cop: u8) -> Spec {
             src.push(pack(y as u8, x as u8, y as u8, sa));
         }
     }
-    Spec { family: "channel-exhaustive", mode, lop, cop, w: 256, h: 256, back, src, descr: format!("all 65536 (backdrop channel, source channel) pairs in each channel, Ba={} Sa={}", ba, sa) }
+    Spec { family: "channel-exhaustive", mode, lop, cop, w: 256, h: 256, back, src, descr: format!("all 65536 (backdrop channel, source channel) pairs in each channel, Ba={} Sa={}", ba, sa), tilemap_top: false }
 }
 
 /// family 2: colour grids for HSL modes; block selects which 65536-slice of the grid^6 space
@@ -208,10 +220,12 @@ pub fn spec_hsl(mode: u16, vals: &[u8], block: u64, ba: u8, sa: u8, lop: u8, cop
         back.push(pack(c[0], c[1], c[2], ba));
         src.push(pack(c[3], c[4], c[5], sa));
     }
-    Spec { family: "hsl-grid", mode, lop, cop, w: 256, h: 256, back, src, descr: format!("colour grid {}^3 x {}^3 block {} Ba={} Sa={}", n, n, block, ba, sa) }
+    Spec { family: "hsl-grid", mode, lop, cop, w: 256, h: 256, back, src, descr: format!("colour grid {}^3 x {}^3 block {} Ba={} Sa={}", n, n, block, ba, sa), tilemap_top: false }
 }
 
 pub fn spec_random(mode: u16, seed: u64, biased: bool) -> Spec {
+    // every fourth random sprite delivers the source through a tilemap cel
+    let tilemap_top = (seed >> 7) % 4 == 0;
     let mut r = Rng(seed);
     let pick = |r: &mut Rng| -> u8 {
         if biased {
@@ -241,7 +255,7 @@ pub fn spec_random(mode: u16, seed: u64, biased: bool) -> Spec {
         back.push(pack(b[0], b[1], b[2], b[3]));
         src.push(pack(s[0], s[1], s[2], s[3]));
     }
-    Spec { family: if biased { "boundary-biased-random" } else { "uniform-random" }, mode, lop, cop, w: 128, h: 128, back, src, descr: format!("seed {}", seed) }
+    Spec { family: if tilemap_top { "random-tilemap-source" } else if biased { "boundary-biased-random" } else { "uniform-random" }, mode, lop, cop, w: 128, h: 128, back, src, descr: format!("seed {}{}", seed, if tilemap_top { ", source layer is a tilemap" } else { "" }), tilemap_top }
 }
 
 #[derive(Clone, Debug)]
@@ -442,7 +456,7 @@ fn run_jobs(run: &mut Run, js: &[Job], c17: bool) {
 }
 
 pub fn run(run: &mut Run) {
-    run.rule = "a case is one generated two-layer probe sprite rendered through Frame::image (bottom layer Normal 255/255 carries the backdrop pixels verbatim, top layer carries mode, layer opacity and cel opacity); families: (1) channel-exhaustive 256x256 squares for the 15 separable modes (every (backdrop channel, source channel) pair in each channel) over a set of (Ba, Sa, layer opacity, cel opacity) - thorough: all 256x256 (Ba,Sa) at full opacity, i.e. the complete (b,s,Ba,Sa) space, plus a 16x16 alpha grid x 23 opacity pairs; (2) colour grids forcing every ordering/tie pattern of (r,g,b) on both sides for the 4 HSL modes; (3) uniform random tuples, all 19 modes; (4) boundary-biased random tuples. Oracle: bit-exact equality on all four channels with Aseprite's C++ blend functions (cref/aseprite_blend.cc), which are first re-validated against the Aseprite-exported blend_*.png files. non-trivial sprite: >= 25% of its tuples have Ba>0, Sa>0 and a non-zero opacity product; distinct by content hash; tuple counts in counters".into();
+    run.rule = "a case is one generated two-layer probe sprite rendered through Frame::image (bottom layer Normal 255/255 carries the backdrop pixels verbatim, top layer carries mode, layer opacity and cel opacity); families: (1) channel-exhaustive 256x256 squares for the 15 separable modes (every (backdrop channel, source channel) pair in each channel) over a set of (Ba, Sa, layer opacity, cel opacity) - thorough: all 256x256 (Ba,Sa) at full opacity, i.e. the complete (b,s,Ba,Sa) space, plus a 16x16 alpha grid x 23 opacity pairs; (2) colour grids forcing every ordering/tie pattern of (r,g,b) on both sides for the 4 HSL modes; (3) uniform random tuples, all 19 modes; (4) boundary-biased random tuples; a quarter of the random sprites deliver the source pixels through a tilemap cel (one tile holding the source image) so that the tilemap compositing path obeys the same arithmetic. Oracle: bit-exact equality on all four channels with Aseprite's C++ blend functions (cref/aseprite_blend.cc), which are first re-validated against the Aseprite-exported blend_*.png files. non-trivial sprite: >= 25% of its tuples have Ba>0, Sa>0 and a non-zero opacity product; distinct by content hash; tuple counts in counters".into();
     run.assumptions = vec!["trusted base: verbatim excerpts from ref/dummy.cc and macro texts quoted in src/blend.rs; the remaining functions are a transcription of upstream blend_funcs.cpp validated against 19 x 65536 Aseprite-exported pixels at opacity 255".into(), "compiled with clang++ -O1 -ffp-contract=off".into()];
     match validate_reference() {
         Ok((files, pixels)) => {
